@@ -459,12 +459,17 @@ class Status:
         fileData = dict(tuple([el.split('=', 1) for el in fileData if el.find('=') != -1]))
 
         # VV: here we are reversing the encodings we performed in self.writeToStream
+        error_description = None
         if 'error-description' in fileData:
-            fileData['error-description'] = fileData['error-description'].encode('utf-8').decode('unicode_escape')
+            error_description = fileData['error-description'].encode('utf-8').decode('unicode_escape')
 
         # FIXME: StageWeights need to be written to file??
         # Or set by StatusMonitor on restart??
-        return Status(filename, fileData, ast.literal_eval(fileData['stages']))
+        status = Status(filename, fileData, ast.literal_eval(fileData['stages']))
+        if error_description is not None:
+            # VV: the constructor strips values, the description must be read back exactly as it was written
+            status.data['error-description'] = error_description
+        return status
 
     def __init__(self, filename, data, stages):
 
@@ -621,10 +626,10 @@ class Status:
         """
         new_data = {x: self.data[x] for x in self.data}
         # VV: See method docstring
-        if 'error-description' in self.data:
-            self.data['error-description'] = self.data['error-description'].encode('unicode_escape').decode('utf-8')
+        if 'error-description' in new_data:
+            new_data['error-description'] = new_data['error-description'].encode('unicode_escape').decode('utf-8')
         for key in sorted(new_data):
-            stream.write("%s=%s\n" % (key, self.data[key]))
+            stream.write("%s=%s\n" % (key, new_data[key]))
 
     # Output
     def update(self):
